@@ -31,6 +31,7 @@ RULE = ('R-produced messages: (a) every 0/1 pattern of every bitmap length 1..8 
         'plain, replicated and string elements; (d) explicit 031031 lists; (e) random templates with bitmap '
         'tails; compressed and uncompressed, 1-4 subsets.  Non-trivial = at least one attribute link or '
         'associated field compared; distinct by SHA-1 of the message bytes')
+RULE += '; added with rounds 10-12: links re-read after later decodes / in the middle of scans (mid-scan scenarios incl. late reads); bitmap bits given as null / true-false / floats; twins'
 ASSUMPTIONS = ['R (mon/refbufr) reads the bitmap rule as stated in the property (DESIGN appendix A)',
                'bits are matched to plain Table B element fields (incl. class 31) preceding the first bitmap operator '
                'since the start of the subset or the last 235000',
